@@ -613,50 +613,46 @@ Proof. split; vm_compute; reflexivity. Qed.
 (* ================================================================== WMTS GetFeatureInfo uses the served tile *)
 Local Open Scope Z_scope.
 
-(* For the request classes that carry origin = 'nw' (KVP GetTile, KVP GetFeatureInfo, RESTful GetTile) the bbox
-   is the rectangle the WMTS address denotes, on grids of both origins, whenever the tiled area of the level ends
-   at the top of the grid bbox (misalign = 0: what supports_access_with_origin('nw') checks before a grid is
-   offered through WMTS).  In particular GetFeatureInfo (KVP) is forwarded for the tile GetTile serves (F6). *)
+(* All four WMTS request classes carry origin = 'nw': the bbox used is the rectangle the WMTS address denotes, on
+   grids of both origins, whenever the tiled area of the level ends at the top of the grid bbox (misalign = 0:
+   what supports_access_with_origin('nw') checks before a grid is offered through WMTS). *)
 Lemma wmts_bbox_is_rectangle g r col row l :
-  r <> RestFeatureInfo \/ ul g = true ->
   misalign g l = 0 ->
   wmts_bbox g r col row l =
     match limit_tile g col row l with Some _ => Some (wmts_rectangle g col row l) | None => None end.
 Proof.
-  intros Hr Hm. unfold wmts_bbox, internal_tile_coord.
+  intros Hm. unfold wmts_bbox, internal_tile_coord, wmts_origin.
   unfold limit_tile. destruct (negb (valid_level g l)); [reflexivity|].
   destruct (grid_size g l) as [nx ny] eqn:Egs.
   destruct ((col <? 0) || (row <? 0) || (nx <=? col) || (ny <=? row)); [reflexivity|].
-  assert (Hflip : ul g = false ->
-                  (let '(x, y, l') := flip_tile_coord g col row l in tile_bbox g x y l') = wmts_rectangle g col row l).
-  { intros Hul. unfold flip_tile_coord, wmts_rectangle, tile_bbox, nw_grid. rewrite Egs. cbn [snd ul gx0 gy0 gx1 gy1 tw th].
-    rewrite Hul. unfold misalign in Hm. rewrite Egs in Hm. cbn [snd] in Hm.
-    unfold res_at in *. cbn [ress]. apply bbox_eq; nia. }
-  assert (Hsame : ul g = true -> tile_bbox g col row l = wmts_rectangle g col row l).
-  { intros Hul. unfold wmts_rectangle, tile_bbox, nw_grid. cbn [ul gx0 gy0 gx1 gy1 tw th]. rewrite Hul.
-    unfold res_at. cbn [ress]. reflexivity. }
   destruct (ul g) eqn:Eul.
-  - destruct r; cbn [wmts_origin]; rewrite (Hsame eq_refl); reflexivity.
-  - destruct Hr as [Hr|Hr]; [|discriminate].
-    destruct r; cbn [wmts_origin]; try (exfalso; apply Hr; reflexivity);
-      specialize (Hflip eq_refl); destruct (flip_tile_coord g col row l) as [[x y] l'];
-      rewrite Hflip; reflexivity.
+  - unfold wmts_rectangle, tile_bbox, nw_grid. cbn [ul gx0 gy0 gx1 gy1 tw th]. rewrite Eul.
+    unfold res_at. cbn [ress]. reflexivity.
+  - assert (Hflip : (let '(x, y, l') := flip_tile_coord g col row l in tile_bbox g x y l') = wmts_rectangle g col row l).
+    { unfold flip_tile_coord, wmts_rectangle, tile_bbox, nw_grid. rewrite Egs. cbn [snd ul gx0 gy0 gx1 gy1 tw th].
+      rewrite Eul. unfold misalign in Hm. rewrite Egs in Hm. cbn [snd] in Hm.
+      unfold res_at in *. cbn [ress]. apply bbox_eq; nia. }
+    destruct (flip_tile_coord g col row l) as [[x y] l']. rewrite Hflip. reflexivity.
 Qed.
 
-(* The RESTful GetFeatureInfo request class has no origin: on a grid numbered from the south it forwards the
-   bbox of the vertically mirrored tile (finding reported with C16, reproduced by ./check C01). *)
-Lemma wmts_rest_featureinfo_refuted :
-  exists g col row l,
-    wf g /\ valid_level g l = true /\ misalign g l = 0 /\
-    wmts_bbox g RestTile col row l = Some (wmts_rectangle g col row l) /\
-    wmts_bbox g RestFeatureInfo col row l <> Some (wmts_rectangle g col row l).
+(* GetFeatureInfo, KVP or RESTful, is forwarded with the bbox of the tile that GetTile serves for the same
+   address - on every grid, aligned or not (the request classes do not differ in their origin any more) *)
+Lemma wmts_featureinfo_uses_served_tile g r r' col row l :
+  wmts_bbox g r col row l = wmts_bbox g r' col row l.
+Proof. reflexivity. Qed.
+
+(* non-vacuity: the grid of the former defect (numbered from the south): RESTful GetFeatureInfo for column 0,
+   row 0 of matrix 1 uses the north-west tile *)
+Example wmts_featureinfo_nonvacuous :
+  let g := mkGrid 0 0 51200 51200 64 64 [400; 200; 100]%Z false 23 20 4 1 in
+  wf g /\ valid_level g 1 = true /\ misalign g 1 = 0 /\
+  wmts_bbox g RestFeatureInfo 0 0 1 = Some (0, 38400, 12800, 51200) /\
+  wmts_rectangle g 0 0 1 = (0, 38400, 12800, 51200).
 Proof.
-  exists (mkGrid 0 0 51200 51200 64 64 [400; 200; 100] false 23 20 4 1), 0, 0, 1.
-  split.
+  cbv zeta. split.
   { unfold wf, pos_res. cbn [gx0 gx1 gy0 gy1 tw th ress].
     split; [lia|]. split; [lia|]. split; [lia|]. split; [lia|]. intros r [<-|[<-|[<-|[]]]]; lia. }
-  split; [reflexivity|]. split; [reflexivity|]. split; [vm_compute; reflexivity|].
-  vm_compute. intro H. discriminate H.
+  split; [reflexivity|]. split; [reflexivity|]. split; vm_compute; reflexivity.
 Qed.
 
 (* ================================================================== sub-extent placement, instantiated *)
